@@ -70,8 +70,8 @@ func (c *c12Conn) Write(p []byte) (int, error) {
 }
 
 func (c *c12Conn) Close() error {
-	c.closes.Add(1)
 	c.rec.emit(vfRec{"ev": "conn.close", "c": c.id}, c.id) // logged before the close takes effect
+	c.closes.Add(1)                                        // (the quiescence test reads this: only after the event is in the log)
 	return c.Conn.Close()
 }
 
